@@ -18,6 +18,13 @@ def px2Un (g : UInt32 → Int32 → Rs.M Int32) (s : Spec.Fmt → Nat → Nat) (
 def px2Tern (g : UInt32 → Int32 → Int32 → Int32 → Rs.M Int32) (s : Spec.Fmt → Nat → Nat → Nat → Nat) (n : Nat) : Bool :=
   Sweep.all3 (2 ^ n) (2 ^ n) (2 ^ n) fun a b c =>
     Sweep.isOk (g (UInt32.ofNat n) (emb n a) (emb n b) (emb n c)) (emb n (s (Spec.px2 n) a b c))
+
+/-- the same for PxE1 (es = 1) -/
+def px1Bin (g : UInt32 → Int32 → Int32 → Rs.M Int32) (s : Spec.Fmt → Nat → Nat → Nat) (n : Nat) : Bool :=
+  Sweep.all2 (2 ^ n) (2 ^ n) fun a b =>
+    Sweep.isOk (g (UInt32.ofNat n) (emb n a) (emb n b)) (emb n (s (Spec.px1 n) a b))
+def px1Un (g : UInt32 → Int32 → Rs.M Int32) (s : Spec.Fmt → Nat → Nat) (n : Nat) : Bool :=
+  Sweep.all1 (2 ^ n) fun a => Sweep.isOk (g (UInt32.ofNat n) (emb n a)) (emb n (s (Spec.px1 n) a))
 /-- widths `lo ≤ n < lo + k` -/
 def widths (lo k : Nat) (p : Nat → Bool) : Bool := Sweep.allRange lo k p
 
